@@ -213,11 +213,40 @@ class ListSplitter:
             yield train, test
 
 
+class BufferedSplitter:
+    """
+    Hold-out repeated k times; like some hand-written splitters it re-uses ONE permutation buffer and
+    yields views of it, refilled for every split.  Fine for any caller that takes its rows before
+    asking for the next split (serial verde does); a caller that keeps the index objects for later sees
+    only the last split.
+    """
+
+    def __init__(self, n_splits=3, seed=0):
+        self.n_splits, self.seed = n_splits, seed
+
+    def get_n_splits(self, X=None, y=None, groups=None):  # noqa: U100,N803
+        return self.n_splits
+
+    def split(self, X, y=None, groups=None):  # noqa: U100,N803
+        n = len(X)
+        rs = np.random.RandomState(self.seed)
+        buf = np.arange(n)
+        ntest = max(n // 3, 2)
+        for _ in range(self.n_splits):
+            buf[:] = rs.permutation(n)
+            yield buf[ntest:], buf[:ntest]
+
+
 def gen_cv_spec(tape, n, tag="cv"):
     kind = tape.weighted(
-        [("default", 3), ("kfold", 2), ("shuffle", 2), ("blockkfold", 2), ("blockshuffle", 2), ("timeseries", 1), ("predefined", 1), ("repeated", 1), ("lists", 1)],
+        [("default", 3), ("kfold", 2), ("shuffle", 2), ("blockkfold", 2), ("blockshuffle", 2), ("timeseries", 1), ("predefined", 1), ("repeated", 1), ("lists", 1), ("buffered", 1), ("shuffle_rs_instance", 1)],
         f"{tag}.kind",
     )
+    if kind == "buffered":
+        return ["buffered", tape.randint(2, 4, f"{tag}.k"), tape.draw(100, f"{tag}.seed")]
+    if kind == "shuffle_rs_instance":
+        # random_state given as a (fresh) RandomState INSTANCE: consumed once per call, wherever splitting happens
+        return ["shuffle_rs_instance", tape.randint(2, 4, f"{tag}.k"), tape.pick([0.25, 0.4], f"{tag}.test"), tape.draw(100, f"{tag}.seed")]
     if kind == "timeseries":
         return ["timeseries", tape.randint(2, 3, f"{tag}.k")]
     if kind == "predefined":
@@ -279,7 +308,16 @@ def build_cv(spec):
         return RepeatedKFold(n_splits=spec[1], n_repeats=spec[2], random_state=spec[3])
     if kind == "lists":
         return ListSplitter(n_splits=spec[1], offset=spec[2])
+    if kind == "buffered":
+        return BufferedSplitter(n_splits=spec[1], seed=spec[2])
+    if kind == "shuffle_rs_instance":
+        return ShuffleSplit(n_splits=spec[1], test_size=spec[2], random_state=np.random.RandomState(spec[3]))
     raise ValueError(spec)
+
+
+def cv_is_stateful(spec):
+    """True if one cross-validator OBJECT legitimately gives other splits on its second use."""
+    return spec[0] == "shuffle_rs_instance"
 
 
 class _Predefined:
@@ -321,11 +359,17 @@ def _plain_scorer(estimator, X, y, sample_weight=None):  # noqa: N803
     return -float(np.average(err, weights=sample_weight))
 
 
-SCORINGS = ["none", "r2", "neg_mean_squared_error", "neg_mean_absolute_error", "neg_root_mean_squared_error", "custom", "plain"]
+def _weighted_misfit_sum(y_true, y_pred, sample_weight=None):
+    """A metric that is NOT normalised by the weights (chi-square like): sensitive to the scale of the weights it is handed."""
+    err = np.abs(np.asarray(y_true) - np.asarray(y_pred)) ** 2
+    return float(np.sum(err if sample_weight is None else np.asarray(sample_weight) * err))
+
+
+SCORINGS = ["none", "r2", "neg_mean_squared_error", "neg_mean_absolute_error", "neg_root_mean_squared_error", "custom", "plain", "custom_sum"]
 
 
 def gen_scoring(tape, tag="scoring"):
-    return tape.weighted([(s, 3 if s in ("none", "custom") else 2 if s != "plain" else 1) for s in SCORINGS], tag)
+    return tape.weighted([(s, 3 if s in ("none", "custom") else 1 if s in ("plain", "custom_sum") else 2) for s in SCORINGS], tag)
 
 
 def build_scoring(name):
@@ -337,6 +381,10 @@ def build_scoring(name):
         return make_scorer(_cube_root_loss, greater_is_better=False)
     if name == "plain":
         return _plain_scorer
+    if name == "custom_sum":
+        from sklearn.metrics import make_scorer
+
+        return make_scorer(_weighted_misfit_sum, greater_is_better=False)
     return name
 
 
@@ -358,4 +406,6 @@ def metric(name, y, p, w):
         return -np.sqrt(np.average((y - p) ** 2, weights=w))
     if name in ("custom", "plain"):
         return -np.average(np.abs(y - p) ** 1.5, weights=w)
+    if name == "custom_sum":
+        return -np.sum((y - p) ** 2 if w is None else w * (y - p) ** 2)
     raise ValueError(name)
